@@ -44,6 +44,9 @@ ASSUMPTIONS = [
     'no weather (use_weather=False); builders and performance models are reused across cases inside a worker; '
     'sequence cases (Q*) create their own builder so that they replay in a fresh process',
     'positions are compared with a private WGS-84 pyproj Geod (trusted primitive)',
+    'resampling: one interior time (fractions 1/2, 1/4, 3/4) in every segment of consecutive points with distinct '
+    'time stamps x all 14 per-point fields must equal the linear interpolation of exactly those two points; at a '
+    'time stamp recorded twice (phase hand-over) the resampled value may be either recorded copy',
     'a raise is never a violation of this property; it is classified (refused:<reason> / error:<type>)',
     'phase boundaries are taken from the returned n_climb and n_cruise; n_descent is not used '
     '(the builder reports one less than the number of descent points)',
@@ -627,16 +630,20 @@ def judge(case, kind, res):
     return {'outcome': outcome, 'nontrivial': not degenerate, 'violations': vio}
 
 
+RESAMPLE_FRACTIONS = [0.5, 0.25, 0.75]  # position of the interior time inside each segment
+
+
 def _resample(traj, pts, meta, t):
     vio = []
     plans = []
-    idx, tm = mon.midpoints(t)
-    plans.append(('own', np.array(t, float)))
-    if len(tm):
-        plans.append(('mid', tm))
-    plans.append(('own-again', np.array(t, float)))
+    plans.append(('own', np.array(t, float), None))
+    for frac in RESAMPLE_FRACTIONS:  # one interior time in every segment x every per-point field
+        idx, tm = mon.interior_times(t, frac)
+        if len(tm):
+            plans.append(('mid', tm, idx))
+    plans.append(('own-again', np.array(t, float), None))
     first_own = None
-    for label, times in plans:
+    for label, times, idx in plans:
         try:
             r = traj.interpolate_time(times.copy())
             rp = {f: np.array(getattr(r, f), dtype=float) for f in mon.POINT_FIELDS}
@@ -646,7 +653,7 @@ def _resample(traj, pts, meta, t):
             vio.append(V('resample-own' if label != 'mid' else 'resample-mid', f'interpolate_time raised {type(e).__name__}: {str(e)[:300]}'))  # fmt: skip
             continue
         if label == 'mid':
-            fs = mon.check_midpoints(t, pts, idx, tm, rp, rn)
+            fs = mon.check_midpoints(t, pts, idx, times, rp, rn)
         elif label == 'own':
             fs = mon.check_own_times(t, pts, rp, rn)
             first_own = rp
@@ -708,7 +715,9 @@ _ASSERT = {
     'resample-mid': (
         "t = traj.flight_time; i = np.flatnonzero(np.diff(t) > 0); tm = (t[i] + t[i + 1]) / 2\n"
         "    r = traj.interpolate_time(tm)\n"
-        "    assert np.allclose(r.ground_distance, (traj.ground_distance[i] + traj.ground_distance[i + 1]) / 2, rtol=1e-9, atol=0)"
+        "    for f in ('ground_distance', 'fuel_mass', 'fuel_flow', 'rate_of_climb', 'ground_speed', 'heading', 'true_airspeed'):\n"
+        "        v = getattr(traj, f)\n"
+        "        assert np.allclose(getattr(r, f), (v[i] + v[i + 1]) / 2, rtol=1e-9, atol=1e-12), f"
     ),
 }
 
